@@ -138,9 +138,9 @@ mut('C03-05-multiplicative-error-dsigma-sign', EM,
 mut('C15-01-posterior-columns-drawn-independently', PR,
     "            parameters = rng.choice(posterior)\n",
     "            parameters = rng.choice(posterior)\n            if n_chains * n_draws > 2 and n_samples > 3:\n                parameters = np.array([\n                    rng.choice(posterior[:, k])\n                    for k in range(n_parameters)])\n")
-mut('C15-02-pam-id-shift-uses-model-index', PR,
+mut('C15-02-pam-id-shift-by-previous-model-only', PR,
     "            s['ID'] += int(np.sum(samples_per_model[:model_id]))\n",
-    "            s['ID'] += int(samples_per_model[0]) * min(model_id, 1) \\\n                if model_id < 2 else int(np.sum(samples_per_model[:model_id]))\n")
+    "            s['ID'] += int(np.sum(samples_per_model[max(0, model_id - 1):model_id]))\n")
 mut('C15-03-pred-table-uses-unsorted-times', PR,
     "        # Solve mechanistic model\n        times = np.sort(times)\n        outputs = self._mechanistic_model.simulate(mechanistic_params, times)\n",
     "        # Solve mechanistic model\n        sorted_times = np.sort(times)\n        outputs = self._mechanistic_model.simulate(\n            mechanistic_params, sorted_times)\n        if return_df is False:\n            times = sorted_times\n")
